@@ -30,6 +30,14 @@ def run(ctx):
     while k < n and attempts < 20 * n:
         attempts += 1
         recursive = ctx.rng.random() < 0.4
+        if attempts % 12 == 5:
+            recursive = True
+            shape = matrix_family(ctx.rng)
+            rec, lin = sccs_and_linearity(shape)
+            ctx.count('matrix-family')
+            if run_case(ctx, shape, recursive, lin):
+                k += 1
+            continue
         if recursive:
             from .c02 import gen_shape as g2
             shape = g2(ctx.rng)
@@ -53,6 +61,33 @@ def run(ctx):
                 rec, lin = sccs_and_linearity(shape)
         if run_case(ctx, shape, recursive, lin):
             k += 1
+
+
+def matrix_family(rng):
+    """recursive grammars whose recursive nonterminal has TWO external nodes and a non-symmetric value (matrix-chain / CKY-like):
+    X(d, e) -> a(d, m) X(m, e) | X(d, m) b(m, e) | c(d, e);  S -> X(i, j) w(i, j).  The block of the Jacobian for (X, X) is a 4-d
+    tensor, and the transposed system of the backward pass must flatten rows and columns in the same (row-major) order as the
+    cotangent."""
+    d = rng.choice([2, 2, 3])
+    two = rng.random() < 0.4
+    nls = [d] + ([rng.choice([2, 3])] if two else [])
+    l1 = 1 if two else 0
+    terms = [[0, 0], [l1, l1], [0, l1], [0, l1]]
+    nts = [[], [0, l1]]
+    rules = [dict(lhs=0, nodes=[0, l1], ext=[], edges=[['n', 1, [0, 1]], ['t', 3, [0, 1]]])]
+    kinds = rng.sample(['left', 'right'], rng.choice([1, 2]))
+    for kd in kinds:
+        if kd == 'left':
+            rules.append(dict(lhs=1, nodes=[0, l1, 0], ext=[0, 1], edges=[['t', 0, [0, 2]], ['n', 1, [2, 1]]]))
+        else:
+            rules.append(dict(lhs=1, nodes=[0, l1, l1], ext=[0, 1], edges=[['n', 1, [0, 2]], ['t', 1, [2, 1]]]))
+    rules.append(dict(lhs=1, nodes=[0, l1], ext=[0, 1], edges=[['t', 2, [0, 1]]]))
+    shape = dict(nls=nls, terms=terms, nts=nts, start=0, rules=rules)
+    shape['weights'] = {i: [rng.choice([0.0625, 0.125, 0.25, 0.0]) if i < 2 else rng.choice([1.0, 2.0, 0.5, 3.0])
+                            for _ in range(math.prod(nls[l] for l in ty))] for i, ty in enumerate(terms)}
+    shape['vweights'] = {i: [rng.choice([-1.0, -2.0, -3.0]) for _ in w] for i, w in shape['weights'].items()}
+    shape['bweights'] = {i: [1.0 for _ in w] for i, w in shape['weights'].items()}
+    return shape
 
 
 def add_swapped_parallel_edge(rng, shape):
